@@ -215,6 +215,15 @@ def run_export(case):
     cards = {k: (v.item() if isinstance(v, (np.floating, np.integer)) else v) for k, v in hdr.items() if k not in ("COMMENT", "HISTORY", "")}
     res["cards"] = {k: v for k, v in cards.items() if not (k.split("_")[0] in ("A", "B", "AP", "BP") and k.count("_") == 2)}
     a, b, ap, bp = (_sip_terms(hdr, p) for p in ("A", "B", "AP", "BP"))
+    # a standard reader only uses the terms up to the declared order; cards beyond it are a header inconsistency
+    res["beyond_order"] = []
+    for nm, terms in (("A", a), ("B", b), ("AP", ap), ("BP", bp)):
+        order = hdr.get(nm + "_ORDER")
+        if terms and order is None:
+            res["beyond_order"].append("%s_i_j cards without %s_ORDER" % (nm, nm))
+        elif terms and any(i + j > order for i, j, _c in terms):
+            res["beyond_order"].append("%s_ORDER = %d but cards up to degree %d are written" % (nm, order, max(i + j for i, j, _c in terms)))
+    a, b, ap, bp = ([t for t in terms if t[0] + t[1] <= hdr.get(nm + "_ORDER", 0)] for nm, terms in (("A", a), ("B", b), ("AP", ap), ("BP", bp)))
     res["a"], res["b"], res["ap"], res["bp"] = a, b, ap, bp
     (xmin, xmax), (ymin, ymax) = hbox
     # dense sample of the box, corners included
@@ -349,6 +358,8 @@ def oracle(case, res):
         out.append(("ctype", "RADESYS = %r for frame %s" % (c.get("RADESYS"), case["frame"])))
     if not c["CTYPE1"][5:8] == case["proj"]:
         out.append(("ctype", "CTYPE1 = %r for projection %s" % (c["CTYPE1"], case["proj"])))
+    for msg in res.get("beyond_order", []):
+        out.append(("order", "inconsistent SIP keywords: " + msg))
     if res.get("evaluator_vs_astropy", 0.0) > 1e-8:
         out.append(("evaluator", "independent SIP evaluator and astropy's sip_pix2foc differ by %.3g px" % res["evaluator_vs_astropy"]))
     if res["signalled"]:
